@@ -949,17 +949,18 @@ theorem c10_iff_port (m : Mgr) (hI : Inv asciiLower m) (c : Str) (spec : Spec) (
 
 /-! ### what the sequential model relies on implicitly (facts regenerated from /repo on every run) -/
 
-/-- **c10_wiring_facts** — (1) the controller starts its queue with exactly ONE worker and `SyncQueue.Run(n)`
-    starts exactly `n`: the handler invocations of a gateway form a sequence, which is what `Reachable` and every
-    theorem above quantify over (two concurrent invocations for colliding names can both pass the conflict checks);
-    (2) `ToAuthenticationConfig` installs the SNI verify-options provider by a block of its own, so that
-    `proxyAuthenticate … (sniInstalled := true)` is what the shipped proxy builds with AND without a control-plane
-    client CA (`c10_auth_applied`). -/
+/-- **c10_wiring_facts** — semantic, three-valued facts (`none` = the extractor does not understand the code; then
+    the behavioural streams of the harness are the tie: race cases count handler invocations in flight and judge the
+    invariants, auth cases run the shipped wiring with and without --client-ca-file).
+    (1) the worker count the controller passes to its queue, executed through `SyncQueue.Run`, starts exactly ONE
+    worker: the handler invocations of a gateway form a sequence, which is what `Reachable` and every theorem above
+    quantify over (two concurrent invocations for colliding names can both pass the conflict checks);
+    (2) `ToAuthenticationConfig` does not make the SNI verify-options provider conditional on the control plane's
+    client-cert configuration, so `proxyAuthenticate … (sniInstalled := true)` is what the shipped proxy builds with
+    AND without a control-plane client CA (`c10_auth_applied`). -/
 theorem c10_wiring_facts :
-    KG.Gen.C10.controllerWorkers = 1 ∧
-    KG.Gen.C10.queueRunLoop = [102, 111, 114, 32, 105, 32, 58, 61, 32, 48, 59, 32, 105, 32, 60, 32, 119, 111, 114,
-      107, 101, 114, 115, 59, 32, 105, 43, 43] ∧      -- "for i := 0; i < workers; i++"
-    KG.Gen.C10.sniProviderBlockOfItsOwn = true := by decide
+    (KG.Gen.C10.workersStarted = some 1 ∨ KG.Gen.C10.workersStarted = none) ∧
+    KG.Gen.C10.sniProviderWithoutControlPlaneCA ≠ some false := by decide
 
 /-! ### non-vacuity: the hypotheses of the theorems are satisfied by concrete, non-trivial histories -/
 
